@@ -434,3 +434,13 @@ pub fn replay(case: &Value) -> Vec<Violation> {
     with_curve!(case.base.st.curve, G, run_case::<G>(0, &case, &mut st));
     st.violations
 }
+
+pub fn shrink(case: &Value) -> Vec<Value> {
+    let Ok(c) = serde_json::from_value::<Case>(case.clone()) else { return vec![] };
+    let mut out = vec![];
+    if c.mode != RngMode::Normal {
+        out.push(to_value(&Case { base: c.base.clone(), mode: RngMode::Normal, attribute: c.attribute }));
+    }
+    out.extend(shrink_session(&c.base).into_iter().map(|(b, _)| to_value(&Case { base: b, mode: c.mode, attribute: c.attribute })));
+    out
+}
